@@ -49,8 +49,23 @@ def _run(cfg, c, seed, n_total=64):
             "final": float(s.evidence()[0])}
 
 
+def _run_or_error(cfg, c, seed):
+    try:
+        return _run(cfg, c, seed), None
+    except Exception as e:  # noqa
+        import traceback
+        files = [f.filename.split("/")[-1] for f in traceback.extract_tb(e.__traceback__)]
+        return None, (type(e).__name__, "modes.py" in files or "student.py" in files)
+
+
 def shift_problem(cfg, c, seed):
-    a, b = _run(cfg, 0.0, seed), _run(cfg, c, seed)
+    (a, ea), (b, eb) = _run_or_error(cfg, 0.0, seed), _run_or_error(cfg, c, seed)
+    if ea or eb:
+        # a run that aborts on a degenerate cluster is the recorded finding F24 (C18); for THIS property it only matters that the
+        # shifted run behaves the same way
+        if ea and eb and ea == eb:
+            return None
+        return f"one run of the pair aborted and the other did not: unshifted {ea or 'completed'}, shifted {eb or 'completed'}"
     if len(a["beta"]) != len(b["beta"]):
         return f"different number of iterations ({len(a['beta'])} vs {len(b['beta'])})"
     tol = 1e-8
